@@ -683,6 +683,55 @@ def r16i(F):
 	out.append(Result('16.i', okf, ('ok:' if okf else 'source:') + 'cltv-shift', 'get_route: per-hop CLTV deltas are propagated one hop backwards starting from the final delta: %s' % desc, 1, where=None if okf else F.where(fu.name)))
 	return out
 
+def r16j(F):
+	"""fee re-computation once a path's value is known: the fee a hop earns is computed on what that hop actually transfers - the value
+	plus the later fees PLUS any top-up made to reach the hop's htlc_minimum_msat - and by the hop's own fee policy"""
+	fn = R + 'PaymentPath::update_value_and_recompute_fees'
+	fu = F.func(fn)
+	ex = Expr(fu)
+	out = []
+	cf = [(b, ci) for b, ci in fu.calls() if norm(ci.get('f') or '').endswith('router::compute_fees')]
+	if not cf:
+		return [Result('16.j', False, 'anchor:compute_fees', 'update_value_and_recompute_fees no longer calls compute_fees', where=F.where(fn))]
+	for b, ci in cf:
+		a0 = ex.of_operand(ci['args'][0])
+		a1 = expr_str(ex.of_operand(ci['args'][1]))
+		raised = False
+		desc = expr_str(a0)
+		if a0[0] == 'local':
+			for d in fu.defs.get(a0[1], []):
+				if d[1] == 'T':
+					continue
+				txt = expr_str(ex.of_rvalue(d[3]))
+				if 'htlc_minimum_msat(' in txt and 'checked_sub' in txt:
+					raised = True
+		ok = raised and bool(_re.search(r'^fees\(.*candidate\)$', a1))
+		out.append(Result('16.j', ok, ('ok:' if ok else 'amount:') + 'hop-fee-on-transferred-amount', 'update_value_and_recompute_fees: compute_fees(%s, %s): the amount %s the running amount that was raised to the hop\'s htlc_minimum_msat; fee policy of the hop itself: %s' % (desc[:60], a1[:50], 'is' if raised else 'is NOT', bool(_re.search(r'^fees\(.*candidate\)$', a1))), 1, where=None if ok else F.where(fn, fu.line_of(b))))
+	return out
+
+def r16k(F):
+	"""the router sizes its per-node table from ReadOnlyNetworkGraph::max_node_counter and hands counters above it to nodes outside the
+	graph: it must bound every counter ever handed out and still live (next_node_counter - 1), not the number of nodes (a freed counter
+	sits unused until re-assigned, so live nodes can hold counters >= nodes.len())"""
+	out = []
+	n = 0
+	for fname in [x for x in F.fns if x.startswith(G + 'NetworkGraph::')]:
+		try:
+			fu = F.func(fname)
+		except AnchorMissing:
+			continue
+		for bi, si in sites_construct(fu, 'ReadOnlyNetworkGraph'):
+			rv = fu.blocks[bi]['s'][si][2]
+			ex = Expr(fu)
+			vals = {nm: expr_str(ex.of_operand(o)) for nm, o in zip(rv[5], rv[4])}
+			v = vals.get('max_node_counter', '')
+			n += 1
+			ok = 'next_node_counter' in v and bool(_re.search(r'saturating_sub\(.*, 1\)$| Sub 1\)$', v))
+			out.append(Result('16.k', ok, ('ok:' if ok else 'bound:') + 'max-node-counter', '%s: ReadOnlyNetworkGraph.max_node_counter = %s (expected next_node_counter - 1)' % (fname.rsplit('::', 1)[-1], v[:120]), 1, where=None if ok else F.where(fname, fu.line_of(bi))))
+	if n == 0:
+		out.append(Result('16.k', False, 'anchor:ReadOnlyNetworkGraph', 'no construction of ReadOnlyNetworkGraph found in NetworkGraph'))
+	return out
+
 RULES = [
 	('16.a', 'every relaxation step of the path search is dominated by the admission tests (length, CLTV, contribution, htlc_minimum, fee limit)', r16a),
 	('16.c', 'graph channels become candidates only when enabled, without unknown required features, and not our own when first hops are given', r16c),
@@ -692,6 +741,8 @@ RULES = [
 	('16.g', 'fee arithmetic (base + amount * ppm / 1e6) and the per-kind capacity limit have the expected shape', r16g),
 	('16.h', 'capacity shared between paths is counted jointly; superfluous paths and overpayment are removed', r16h),
 	('16.i', 'the RouteHops handed out take SCID, fee, CLTV delta and features from the chosen candidates', r16i),
+	('16.j', 'recomputed hop fees are taken on the amount the hop transfers, htlc_minimum top-up included', r16j),
+	('16.k', 'the node-counter bound handed to the router covers every live counter (next_node_counter - 1)', r16k),
 	('16.b', 'every relaxation step is behind the previously-failed, remaining-capacity, self-channel and path-htlc-minimum tests', r16b),
 	('16.p', 'same-name field transfer: structs carrying this property\'s quantities are filled from the same-named field or a reviewed alias (rules/provenance.py)', lambda F: provenance.for_property(F, 'C16', '16.p')),
 	('16.q', 'no call hands a value named like one parameter of the callee to a different parameter (swapped type-compatible arguments; rules/provenance.py)', lambda F: provenance.swaps_for_property(F, 'C16', '16.q')),
